@@ -576,7 +576,9 @@ impl FilteredReadStream {
                 &mut scan_push_down_fragments_to_read,
             );
 
-            if to_take == 0 {
+            // The limit counts rows that pass the whole filter. The index only answers the
+            // indexed part, so with a refine filter we cannot tell how many matched rows survive.
+            if to_take == 0 && options.refine_filter.is_none() {
                 scan_planned_with_limit_pushed_down = true;
                 fragments_to_read = scan_push_down_fragments_to_read;
                 break;
